@@ -1,5 +1,6 @@
 import Proofs.Lemmas.Committees
 import Proofs.Lemmas.CommitteesSampling
+import Proofs.Lemmas.Sha256Size
 /-!
 # C07 — committee, proposer and sync-committee assignments equal the spec's
 
@@ -510,6 +511,43 @@ theorem newEpochsContext_total {H : ByteArray → ByteArray} (hH : ∀ x, (H x).
     simp only
     rw [e2]
     exact ⟨_, rfl⟩
+/-! ## the concrete hash: SHA-256 (the `hH` hypothesis discharged by `sha256_size`) -/
+
+theorem committee_eq_spec_sha256 {cfg : Cfg} (ok : CfgOK cfg) (hsrc : cfg.SHUFFLE_ROUND_COUNT ≤ 255) (vals : Array Val)
+    (mixes : Nat → ByteArray) (epoch : Nat) (hv : vals.size ≤ 2 ^ 40) (slot index : Nat) (hs : slot < cfg.SLOTS_PER_EPOCH)
+    (hi : index < Spec.get_committee_count_per_slot cfg vals.toList epoch) :
+    ∃ se m, computeShufflingEpoch Zrnt.Sha256.hash cfg vals mixes epoch = .ok se ∧
+      (se.committees[slot]?.bind (·[index]?)) = some m ∧
+      Spec.get_beacon_committee Zrnt.Sha256.hash cfg vals.toList mixes (epoch * cfg.SLOTS_PER_EPOCH + slot) index = .ok m :=
+  committee_eq_spec Zrnt.Proofs.Shuffle.sha256_size ok hsrc vals mixes epoch hv slot index hs hi
+
+theorem ctx_committee_eq_spec_sha256 {cfg : Cfg} (ok : CfgOK cfg) (hsrc : cfg.SHUFFLE_ROUND_COUNT ≤ 255)
+    (hmax : 0 < cfg.MAX_COMMITTEES_PER_SLOT) (vals : Array Val) (mixes : Nat → ByteArray) (slot : Nat)
+    (hv : vals.size ≤ 2 ^ 40) (c : Ctx) (h : newEpochsContext Zrnt.Sha256.hash cfg vals mixes slot = .ok c)
+    (epoch : Nat) (he : epoch = slot / cfg.SLOTS_PER_EPOCH - 1 ∨ epoch = slot / cfg.SLOTS_PER_EPOCH ∨
+      epoch = slot / cfg.SLOTS_PER_EPOCH + 1)
+    (s index : Nat) (hs : s < cfg.SLOTS_PER_EPOCH)
+    (hi : index < Spec.get_committee_count_per_slot cfg vals.toList epoch) :
+    c.getBeaconCommittee cfg (epoch * cfg.SLOTS_PER_EPOCH + s) index =
+      Spec.get_beacon_committee Zrnt.Sha256.hash cfg vals.toList mixes (epoch * cfg.SLOTS_PER_EPOCH + s) index :=
+  ctx_committee_eq_spec Zrnt.Proofs.Shuffle.sha256_size ok hsrc hmax vals mixes slot hv c h epoch he s index hs hi
+
+theorem ctx_proposer_eq_spec_partial_sha256 {cfg : Cfg} (ok : CfgOK cfg) (hsrc : cfg.SHUFFLE_ROUND_COUNT ≤ 255)
+    (vals : Array Val) (mixes : Nat → ByteArray) (slot : Nat) (hv : vals.size ≤ 2 ^ 40) (c : Ctx)
+    (h : newEpochsContext Zrnt.Sha256.hash cfg vals mixes slot = .ok c) (s : Nat) (hs : s < cfg.SLOTS_PER_EPOCH)
+    (extraFuel : Nat) :
+    ∃ p, c.getBeaconProposer cfg (slot / cfg.SLOTS_PER_EPOCH * cfg.SLOTS_PER_EPOCH + s) = .ok p ∧
+      Spec.get_beacon_proposer_index Zrnt.Sha256.hash cfg vals.toList mixes
+        (slot / cfg.SLOTS_PER_EPOCH * cfg.SLOTS_PER_EPOCH + s) (32000 + extraFuel) = .ok p :=
+  ctx_proposer_eq_spec_partial Zrnt.Proofs.Shuffle.sha256_size ok hsrc vals mixes slot hv c h s hs extraFuel
+
+theorem newEpochsContext_total_sha256 {cfg : Cfg} (ok : CfgOK cfg) (hsrc : cfg.SHUFFLE_ROUND_COUNT ≤ 255)
+    (vals : Array Val) (mixes : Nat → ByteArray) (slot : Nat) (hv : vals.size ≤ 2 ^ 40)
+    (hm : HasMaxBalance cfg vals (activeIndices vals (slot / cfg.SLOTS_PER_EPOCH)))
+    (hsmall : (activeIndices vals (slot / cfg.SLOTS_PER_EPOCH)).size ≤ 32000) :
+    ∃ c, newEpochsContext Zrnt.Sha256.hash cfg vals mixes slot = .ok c :=
+  newEpochsContext_total Zrnt.Proofs.Shuffle.sha256_size ok hsrc vals mixes slot hv hm hsmall
+
 /-! ## non-vacuity: the hypotheses are satisfiable -/
 
 /-- a small configuration (the "minimal" preset's committee constants) -/
